@@ -19,6 +19,7 @@ func genC04(t *rapid.T) Case {
 	n := rapid.IntRange(2, 4).Draw(t, "nprocs")
 	c.Progs = drawProgs(t, n, 4, []OpWeights{allOps}, hs, c.Cfg.Exact)
 	c.Sched = drawSched(t, n)
+	c.YieldOnWrite = rapid.IntRange(0, 3).Draw(t, "yieldOnWrite") == 3
 	return c
 }
 
@@ -38,6 +39,7 @@ func classify(o *Obs, c Case, r *Result) {
 	o.ClassIf(r.Killed > 0, "with-crash")
 	o.ClassIf(r.CrashAfterRename, "crash-after-a-rename")
 	o.ClassIf(c.Cfg.Hash == 2, "sha256")
+	o.ClassIf(c.YieldOnWrite, "file-writes-are-yield-points")
 	o.Count("fs_steps", r.Steps)
 	o.Count("list_versions", r.Versions)
 }
